@@ -88,7 +88,7 @@ func c18Walkers(c *Ctx) {
 	}
 	c.Check(len(sigNames) == 2, "R18a", "signature stream names", "-", fmt.Sprintf("%d names", len(sigNames)), "the two signature stream names were not found")
 	for _, spec := range []string{"lib/authenticode.hashMsiDir", "lib/authenticode.prehashMsiDir", "lib/authenticode.msiToTarDir"} {
-		fn := p.Func(spec)
+		fn := msiWalker(p, spec)
 		if fn == nil {
 			c.Undecided("R18a", spec, "-", "function not found")
 			continue
@@ -129,7 +129,7 @@ func c18Walkers(c *Ctx) {
 	}
 	// storage UID after the children
 	for _, spec := range []string{"lib/authenticode.hashMsiDir", "lib/authenticode.msiToTarDir"} {
-		fn := p.Func(spec)
+		fn := msiWalker(p, spec)
 		if fn == nil {
 			continue
 		}
@@ -365,7 +365,18 @@ func c18Layout(c *Ctx, fns []*ssa.Function) {
 		}
 		ok := false
 		n := 0
-		for _, b := range fn.Blocks {
+		// the function itself and the steps of it that were given a name (a commit() split off Close)
+		hosts := []*ssa.Function{fn}
+		for _, ci := range callsOf(fn) {
+			if h := ci.Common().StaticCallee(); h != nil && h.Pkg == fn.Pkg && h.Blocks != nil && h != fn {
+				hosts = append(hosts, h)
+			}
+		}
+		var blocks []*ssa.BasicBlock
+		for _, h := range hosts {
+			blocks = append(blocks, h.Blocks...)
+		}
+		for _, b := range blocks {
 			for _, in := range b.Instrs {
 				st, isSt := in.(*ssa.Store)
 				if !isSt {
@@ -830,7 +841,33 @@ func c18Tree(c *Ctx) {
 			c.Analysed(p.FName(less))
 			folds := false
 			lenFirst := false
-			for f := range p.moduleReach([]*ssa.Function{less}, nil) {
+			// what the ordering function runs: its callees, and the functions it hands to a library
+			// routine as an argument (slices.CompareFunc(a, b, compareUpper16))
+			ran := map[*ssa.Function]bool{}
+			work := []*ssa.Function{less}
+			for len(work) > 0 {
+				r := work[0]
+				work = work[1:]
+				for f := range p.moduleReach([]*ssa.Function{r}, nil) {
+					if ran[f] {
+						continue
+					}
+					ran[f] = true
+					for _, ci := range callsOf(f) {
+						for _, a := range ci.Common().Args {
+							switch x := a.(type) {
+							case *ssa.Function:
+								work = append(work, x)
+							case *ssa.MakeClosure:
+								if cf, ok := x.Fn.(*ssa.Function); ok {
+									work = append(work, cf)
+								}
+							}
+						}
+					}
+				}
+			}
+			for f := range ran {
 				for _, b := range f.Blocks {
 					for _, in := range b.Instrs {
 						if ci, ok := in.(ssa.CallInstruction); ok {
@@ -1235,4 +1272,49 @@ func c18Truncate(c *Ctx, fns []*ssa.Function) {
 		c.Check(bad == "", "R18g", key, p.Pos(t.Pos()), fmt.Sprintf("%d table reads feed the offset, all after the %d allocating steps", len(feeding), len(muts)),
 			"the truncation offset is read off the allocation table before "+bad+", which can still allocate a sector: a table sector placed after all data is cut off and the header then lists a sector beyond the end of the file")
 	}
+}
+
+// msiWalker: the recursive walk over an MSI storage that spec names today - by name while the
+// name exists, otherwise by what it does: a function of lib/authenticode that lists a storage
+// (ComDoc.ListDir) and calls itself, told apart by its output (tar headers / the metadata
+// encoder / neither).
+func msiWalker(p *Prog, spec string) *ssa.Function {
+	if fn := p.Func(spec); fn != nil {
+		return fn
+	}
+	kind := "hash"
+	switch {
+	case strings.HasSuffix(spec, "msiToTarDir"):
+		kind = "tar"
+	case strings.HasSuffix(spec, "prehashMsiDir"):
+		kind = "prehash"
+	}
+	var found *ssa.Function
+	for _, fn := range p.pkgFuncs("lib/authenticode") {
+		if len(p.callsIn(fn, "(*lib/comdoc.ComDoc).ListDir")) == 0 {
+			continue
+		}
+		rec := false
+		for _, ci := range callsOf(fn) {
+			if ci.Common().StaticCallee() == fn {
+				rec = true
+			}
+		}
+		if !rec {
+			continue
+		}
+		k := "hash"
+		if len(p.callsIn(fn, "(*archive/tar.Writer).WriteHeader")) > 0 {
+			k = "tar"
+		} else if len(p.callsIn(fn, "lib/authenticode.prehashMsiDirent")) > 0 {
+			k = "prehash"
+		}
+		if k == kind {
+			if found != nil {
+				return nil
+			}
+			found = fn
+		}
+	}
+	return found
 }
